@@ -15,3 +15,5 @@ def run(rep: Report, repo: Repo, tier: str) -> None:
     fsrules.rule_no_mutation_while_iterating(rep, repo, "C14-R2m")
     fsrules.rule_topdir_test(rep, repo, "C14-R3")
     writer_rules.rule_directive_order(rep, repo, "C14-R4")
+    fsrules.rule_index_always_written(rep, repo, "C14-R5")
+    fsrules.rule_isolation(rep, repo, "C14-R6")
